@@ -447,8 +447,7 @@ list_contains_fns = {}
 
 def list_contains(ty, lt, x):
     """x in list: uninterpreted predicate with its defining axiom attached lazily."""
-    j = z3.Int('j!in')
-    return z3.Exists([j], z3.And(j >= 0, j < L_len(ty, lt), L_get(ty, lt, j) == x))
+    return L_has(ty, lt, x)
 
 
 NAN_CELL = z3.Const('cell!nan', ValSort)
@@ -745,7 +744,7 @@ def m_index(ex, st, recv, args, kw, e):
     r = z3.Int(fresh_name('idx'))
     n = L_len(ty, recv.t)
     j = z3.Int('j!idx')
-    present = z3.Exists([j], z3.And(j >= 0, j < n, L_get(ty, recv.t, j) == x.t))
+    present = L_has(ty, recv.t, x.t)
     ex.oblige(st, 'safety', 'list-index-value-present', present, e)
     st.assume(z3.And(r >= 0, r < n, L_get(ty, recv.t, r) == x.t))
     st.assume(z3.ForAll([j], z3.Implies(z3.And(j >= 0, j < r), L_get(ty, recv.t, j) != x.t)))
@@ -801,5 +800,15 @@ def q_iteritems(ex, st, args, kw, e):
 
 
 QUALIFIED['six.iteritems'] = q_iteritems
+
+
+def q_cpu_count(ex, st, args, kw, e):
+    from . import spec as S
+    st.assume(S.cpu_count >= 1)
+    ex.assumed_log.append('multiprocessing.cpu_count [assumed: returns an int >= 1]')
+    return V(INT, S.cpu_count)
+
+
+QUALIFIED['multiprocessing.cpu_count'] = q_cpu_count
 
 NATIVES = Natives()
